@@ -22,6 +22,13 @@ enum Emu {
     Igs,
 }
 
+/// voluntary context switches of the calling thread
+fn voluntary_switches() -> i64 {
+    let mut ru: libc::rusage = unsafe { std::mem::zeroed() };
+    unsafe { libc::getrusage(libc::RUSAGE_THREAD, &mut ru) };
+    ru.ru_nvcsw
+}
+
 fn icon_dir() -> PathBuf {
     let root = std::env::var("VERIF_ROOT").unwrap_or_else(|_| "/verif".into());
     PathBuf::from(root).join("harness/data/rip_icons")
@@ -421,9 +428,11 @@ impl Gfx {
                 return;
             }
         }
-        let (c0, t0) = (thread_cpu_ns(), Instant::now());
+        let (c0, t0, v0) = (thread_cpu_ns(), Instant::now(), voluntary_switches());
         let res = m.feed(stream);
         let (cpu_ms, wall_ms) = ((thread_cpu_ns() - c0) / 1_000_000, t0.elapsed().as_millis() as u64);
+        // a thread that went to sleep (sleep, lock, blocking I/O) gave up the CPU voluntarily; one that was merely descheduled on a loaded machine did not
+        let slept = voluntary_switches() > v0;
         let describe = |extra: Value| json!({"emulation": format!("{emu:?}"), "context": ctx_name, "context_stream": show(prefix), "stream": show(stream), "detail": extra});
         let mut f = Fnv::new();
         f.str(key);
@@ -437,7 +446,7 @@ impl Gfx {
         }
         if cpu_ms > CPU_LIMIT_MS {
             ctx.violation(format!("cpu:{key}"), describe(json!({"cpu_ms": cpu_ms, "limit_ms": CPU_LIMIT_MS})));
-        } else if wall_ms > WALL_LIMIT_MS && wall_ms > cpu_ms * 4 {
+        } else if wall_ms > WALL_LIMIT_MS && slept {
             ctx.violation(format!("stall:{key}"), describe(json!({"wall_ms": wall_ms, "cpu_ms": cpu_ms, "limit_ms": WALL_LIMIT_MS})));
         }
         // the canvas as the emulation exposes it drives the fingerprint: distinct pictures are distinct states
